@@ -188,7 +188,9 @@ HookSetSeq(c, v) ==
     /\ c \in Live
     /\ Count("setseq") < MaxSetSeq
     /\ Bump("setseq")
-    /\ ctx' = [ctx EXCEPT ![c].seq = v.seq, ![c].ovf = v.ovf]
+    \* (the jump is remembered with the calls that created the context, so that a test can re-create the state)
+    /\ ctx' = [ctx EXCEPT ![c].seq = v.seq, ![c].ovf = v.ovf,
+                          ![c].made = Append(@, SetSeqRec(c, SeqState(ctx[c]), v))]
     /\ Record(SetSeqRec(c, SeqState(ctx[c]), v))
     /\ UNCHANGED <<sent, rcvd, shots>>
 
